@@ -177,6 +177,11 @@ impl FramebufferTag {
                 let palette = {
                     // Ensure the slice can be created without causing UB
                     assert_eq!(mem::size_of::<FramebufferColor>(), 3);
+                    assert!(
+                        num_colors as usize * mem::size_of::<FramebufferColor>()
+                            <= reader.buffer.len() - reader.off,
+                        "The palette must be covered by the framebuffer tag"
+                    );
 
                     unsafe {
                         slice::from_raw_parts(
